@@ -592,6 +592,17 @@ def r_columns(F, R, cat=None):
                     guard_ok = True
         # ... and exactly as many as the row is long: the bound the column count is compared with is
         # the item's own length, not the width of wherever the item came from
+        # every form creates a missing column the same way: empty, by Default (a column built from
+        # the source's column -- merge_regions(once(col)) -- is sized like it, and for regions
+        # that learn from their sources it also carries their state: the same row then stores
+        # differently depending on the form it was pushed in)
+        for e in creates:
+            v = trees(e.ctx, e.argorigins[1]) if len(e.argorigins) > 1 else ("opaque", "?")
+            alts = v[1] if v[0] == "phi" else (v,)
+            odd = [a for a in alts if not (a[0] == "call" and a[1][1] == "default")]
+            if odd:
+                R.check("R-COLUMNS", b.label(), False, construct="missing columns are created empty, like in the sibling forms",
+                        where=e.where(), detail="this form creates a column as %s; the other push forms use Default::default()" % show(odd[0])[:80])
         width_bad = column_bound_foreign(F, b, ctx, creates)
         if width_bad:
             R.check("R-COLUMNS", b.label(), False, construct="columns are created up to the row's own length",
